@@ -180,3 +180,53 @@ Theorem any_order_with_the_real_evaluator :
                    [] [VInt 1; VInt 1; VInt 1; VInt 2; VInt 2; VInt 1] c2.
 Proof. exact reads_with_the_real_evaluator. Qed.
 Print Assumptions any_order_with_the_real_evaluator.
+
+(** * the premise discharged for bodies of the read-only fragment (proofs/VirtFrame.v)
+    [strip st]: st with the virtual signals of every trace removed.  [clean st n]: n is not an alias, does not address
+    a virtual signal and is not one of the names listing the signals.  An expression of the read-only fragment
+    (ReadOnly.is_ro: literals, names, arithmetic, comparison, logic, bitwise operators, slice, if, do) over clean names
+    that has a value on the stripped state has that value on the state itself and leaves it as it was -- whatever
+    the caches of the virtual signals hold. *)
+From WalModel.proofs Require ContInv VirtFrame.
+
+Theorem read_only_expressions_ignore_virtual_signals : forall lf f e st a,
+  ReadOnly.is_ro e = true -> ContInv.cwf (st_cont st) -> Forall (VirtFrame.clean st) (VirtFrame.syms e) ->
+  eval lf f e (VirtFrame.strip st) = Ok a (VirtFrame.strip st) -> eval lf f e st = Ok a st.
+Proof. exact VirtFrame.read_only_ignores_virtual_signals. Qed.
+Print Assumptions read_only_expressions_ignore_virtual_signals.
+
+Theorem strip_and_clean_are : forall st n,
+  VirtFrame.strip st = upd_cont st (with_traces (st_cont st)
+                         (map (fun p => (fst p, set_virt (snd p) [])) (c_traces (st_cont st)))) /\
+  (VirtFrame.clean st n <->
+   alookup n (st_aliases st) = None /\
+   match address (st_cont st) n with
+   | AOne t sig => amem sig (tr_virt t) = false /\
+                   smem sig ["SIGNALS"; "SIGNALS-NO-ALIAS"; "VIRTUAL-SIGNALS"; "LOCAL-SIGNALS"] = false
+   | _ => True
+   end).
+Proof. intros. split; reflexivity. Qed.
+Print Assumptions strip_and_clean_are.
+
+(** hence, with the real evaluator at any fuel: a virtual signal on a single trace whose body is in the fragment and
+    reads clean names, and can be evaluated at every index of the trace as loaded, yields at ANY sequence of indices
+    -- any order, with repeats, from any sound cache -- the body's value at each index *)
+Theorem reads_of_a_read_only_body_in_any_order : forall lf f tid name st0 t0 body,
+  tr_tid t0 = tid -> c_ntraces (st_cont st0) = 1 ->
+  forallb ReadOnly.is_ro body = true ->
+  Forall (VirtFrame.clean (vstate tid name st0 t0 body 0 [])) (flat_map VirtFrame.syms body) ->
+  forall ts_of : Z -> Z,
+  (forall j, in_range t0 j -> znth (tr_ts t0) j = Some (ts_of j)) ->
+  (forall j j', in_range t0 j -> in_range t0 j' -> ts_of j = ts_of j' -> j = j') ->
+  forall value_at : Z -> val,
+  (forall j, in_range t0 j -> exists vals s',
+     eval_args (eval lf f) body (VirtFrame.strip (vstate tid name st0 t0 body j [])) = Ok vals s' /\ last_opt vals = Some (value_at j)) ->
+  forall js c, Forall (in_range t0) js -> sound t0 ts_of value_at c ->
+  exists c2, reads (eval lf f) tid name st0 t0 body js c (map value_at js) c2 /\ sound t0 ts_of value_at c2.
+Proof. exact VirtFrame.reads_of_a_read_only_body. Qed.
+Print Assumptions reads_of_a_read_only_body_in_any_order.
+
+(** met by v := (+ a 1) over the five-sample trace, for every index sequence *)
+Example every_index_sequence_with_the_real_evaluator : forall js, Forall (in_range ScanProofs.sig_trace) js ->
+  exists c2, reads (eval 50 50) "t" "v" ScanProofs.sig_state ScanProofs.sig_trace v_body js [] (map v_value js) c2.
+Proof. exact VirtFrame.demo_any_order. Qed.
